@@ -300,12 +300,30 @@ theorem scanStr_escape (rest : Text) (s : Text) :
     rw [scanStr.eq_4 _ _ (by intro hc; exact h2 hc) (by intro c' cs' hc _; exact h1 hc)]
     simp [ih]
 
+theorem escapeNix_no_cr (s : Text) : (escapeNix true s).contains '\r' = false := by
+  induction s using escapeNix.induct (interp := true) with
+  | case1 => simp [escapeNix]
+  | case2 cs ih => simp only [List.contains_eq_mem, decide_eq_false_iff_not] at ih ⊢; simp [escapeNix, ih]
+  | case3 cs ih => simp only [List.contains_eq_mem, decide_eq_false_iff_not] at ih ⊢; simp [escapeNix, ih]
+  | case4 cs ih => simp only [List.contains_eq_mem, decide_eq_false_iff_not] at ih ⊢; simp [escapeNix, ih]
+  | case5 cs ih => simp only [List.contains_eq_mem, decide_eq_false_iff_not] at ih ⊢; simp [escapeNix, ih]
+  | case6 cs ih => simp only [List.contains_eq_mem, decide_eq_false_iff_not] at ih ⊢; simp [escapeNix, ih]
+  | case7 cs h ih => simp only [List.contains_eq_mem, decide_eq_false_iff_not] at ih ⊢; simp [escapeNix, ih]
+  | case8 cs h ih => simp at h
+  | case9 c cs h1 h2 h3 h4 h5 h6 ih =>
+    rw [escapeNix.eq_8 _ _ _ h1 h2 h3 h4 h5 h6]
+    simp only [List.contains_eq_mem, decide_eq_false_iff_not, List.mem_cons, not_or] at ih ⊢
+    exact ⟨fun hc => h4 hc.symm, ih⟩
+
 /-- A rendered string literal is read back as one string token holding exactly the original text. -/
 theorem lexData_str (s rest : Text) (hi : hasInterp s = false) (he : litEnd rest = true) :
     lexData ('"' :: escapeNix false s ++ '"' :: rest) = (lexData rest).map (Tok.str s :: ·) := by
   rw [escapeNix_noInterp s hi]
   have hstep : lexStep ('"' :: (escapeNix true s ++ '"' :: rest)) = some (some (Tok.str s), rest) := by
-    simp [lexStep, isWs, scanStr_escape, he, escape_decode]
+    have hcr : ¬ '\r' ∈ escapeNix true s := by
+      have := escapeNix_no_cr s
+      simpa using this
+    simp [lexStep, isWs, scanStr_escape, he, escape_decode, hcr]
   have := lexData_step _ _ _ hstep
   simpa using this
 
